@@ -15,12 +15,14 @@ all: coq/Makefile.coq
 coq/Makefile.coq: coq/_CoqProject
 	cd coq && coq_makefile -f _CoqProject -o Makefile.coq
 
-ocaml/gen/model.ml: coq/Extract.v $(addprefix coq/,$(MODELV)) $(wildcard coq/extract/*.list) | all
-	mkdir -p ocaml/gen && cd ocaml/gen && timeout 600 coqc -Q ../../coq A1 ../../coq/Extract.v
+AREAS := $(shell cat ocaml/gen/areas 2>/dev/null)
+MODELML := $(foreach a,$(AREAS),ocaml/gen/model_$(a).ml)
 
-ocaml/modeldrv: ocaml/gen/model.ml $(wildcard ocaml/*.ml)
-	cd ocaml && cp gen/model.ml gen/model.mli . && \
-	ocamlfind ocamlopt -package zarith -linkpkg -w -a -O2 model.mli model.ml $$(cat ocaml.order) -o modeldrv
+ocaml/gen/model_%.ml: ocaml/gen/Extract_%.v $(addprefix coq/,$(MODELV)) | all
+	cd ocaml/gen && timeout 600 coqc -Q ../../coq A1 Extract_$*.v
+
+ocaml/modeldrv: $(MODELML) $(wildcard ocaml/*.ml) ocaml/gen/main.ml
+	cd ocaml/gen && ocamlfind ocamlopt -package zarith -linkpkg -w -a -O2 $$(cat ocaml.order) -o ../modeldrv
 
 model: all ocaml/modeldrv
 
@@ -28,5 +30,5 @@ setup: all model
 
 clean:
 	-cd coq && [ -f Makefile.coq ] && $(MAKE) -f Makefile.coq clean
-	rm -f coq/Makefile.coq coq/Makefile.coq.conf coq/Extract.vo coq/Extract.glob coq/.Extract.aux
-	rm -rf ocaml/gen ocaml/model.ml ocaml/model.mli ocaml/*.cm* ocaml/*.o ocaml/modeldrv
+	rm -f coq/Makefile.coq coq/Makefile.coq.conf
+	rm -rf ocaml/gen ocaml/*.cm* ocaml/*.o ocaml/modeldrv
